@@ -537,8 +537,9 @@ func Exit(code int) {
 	s.Exited = true
 	s.ExitCode = code
 	Log("exit(%d)", code)
+	t := s.cur // the driver changes s.cur as soon as end() has signalled
 	s.end()
-	s.park(s.cur)
+	s.park(t)
 }
 
 // Fail records a violation and ends the run.
@@ -554,8 +555,9 @@ func Fail(clause, format string, a ...interface{}) {
 		s.Viol = &Violation{Clause: clause, Msg: fmt.Sprintf(format, a...)}
 		Log("VIOLATION %s: %s", clause, s.Viol.Msg)
 	}
+	t := s.cur
 	s.end()
-	s.park(s.cur)
+	s.park(t)
 }
 
 // EndRun ends the run without a violation (e.g. budget reached by the world).
@@ -564,8 +566,9 @@ func EndRun() {
 	if s.dying {
 		return
 	}
+	t := s.cur
 	s.end()
-	s.park(s.cur)
+	s.park(t)
 }
 
 // ---- per-run knobs shared with the shims ----
